@@ -1277,15 +1277,25 @@ def with_stmt(it, st, fr):
             if item.optional_vars is not None:
                 it.assign(item.optional_vars, v, fr)
             entered.append(("cm", cm))
+        elif isinstance(cm, GenObj):
+            # @contextlib.contextmanager over a repository generator: split at its single yield
+            cm = GenCM(it, cm, st)
+            v = cm.vc_enter(it)
+            if item.optional_vars is not None:
+                it.assign(item.optional_vars, v, fr)
+            entered.append(("cm", cm))
         else:
             raise Unsupported(f"with-statement over {type(cm).__name__} (line {st.lineno})")
     try:
         it.exec_block(st.body, fr)
     except PyRaise as pr:
+        suppressed = False
         for kind, cm in reversed(entered):
             if kind == "cm":
-                cm.vc_exit(it, pr.exc)
-        raise
+                if cm.vc_exit(it, None if suppressed else pr.exc) is True:
+                    suppressed = True
+        if not suppressed:
+            raise
     except BaseException:
         for kind, cm in reversed(entered):
             if kind == "cm":
@@ -1295,6 +1305,81 @@ def with_stmt(it, st, fr):
         for kind, cm in reversed(entered):
             if kind == "cm":
                 cm.vc_exit(it, None)
+
+
+class GenCM:
+    """a generator-based context manager of the repository, executed in two halves.  Supported shapes of the generator body:
+    `pre...; yield [v]; post...`   and   `pre...; try: tpre...; yield [v]; tpost...  except/finally ...; post...`
+    (one yield, as a statement).  An exception leaving the with-body is raised at the yield: it runs the try's handlers and
+    finally (it is suppressed if a handler swallows it); without a try it just propagates."""
+
+    def __init__(self, it, g, st):
+        import ast as _ast
+        self.g = g
+        body = [x for x in g.func.node.body
+                if not (isinstance(x, _ast.Expr) and isinstance(x.value, _ast.Constant))]
+
+        def is_yield(x):
+            return isinstance(x, _ast.Expr) and isinstance(x.value, _ast.Yield)
+
+        self.tr = None
+        idx = [i for i, x in enumerate(body) if is_yield(x)]
+        if len(idx) == 1:
+            self.pre, self.y, self.post = body[:idx[0]], body[idx[0]], body[idx[0] + 1:]
+            self.tpre = self.tpost = []
+        else:
+            tries = [i for i, x in enumerate(body) if isinstance(x, _ast.Try) and any(is_yield(y) for y in x.body)]
+            if len(tries) != 1 or idx:
+                raise Unsupported(f"with-statement over a generator whose yield is not at the top of its body or of one try "
+                                  f"(line {st.lineno})")
+            tr = body[tries[0]]
+            j = [i for i, x in enumerate(tr.body) if is_yield(x)]
+            if len(j) != 1:
+                raise Unsupported("generator context manager with several yields")
+            self.tr = tr
+            self.pre, self.post = body[:tries[0]], body[tries[0] + 1:]
+            self.tpre, self.y, self.tpost = tr.body[:j[0]], tr.body[j[0]], tr.body[j[0] + 1:]
+        n_y = sum(1 for x in _ast.walk(g.func.node) if isinstance(x, (_ast.Yield, _ast.YieldFrom)))
+        if n_y != 1:
+            raise Unsupported("generator context manager with several yields")
+
+    def _run(self, it, stmts):
+        fr = self.g.frame
+        it.frames.append(fr)
+        try:
+            it.exec_block(stmts, fr)
+        finally:
+            it.frames.pop()
+
+    def vc_enter(self, it):
+        fr = self.g.frame
+        got = []
+        fr.yield_sink = got.append
+        self._run(it, list(self.pre) + list(self.tpre) + [self.y])
+        return got[0] if got else None
+
+    def vc_exit(self, it, exc):
+        import ast as _ast
+        fr = self.g.frame
+        if exc is None:
+            if self.tr is None:
+                self._run(it, self.post)
+            else:
+                rest = _ast.Try(body=list(self.tpost) or [_ast.Pass()], handlers=self.tr.handlers, orelse=self.tr.orelse,
+                                finalbody=self.tr.finalbody)
+                _ast.copy_location(rest, self.tr)
+                _ast.fix_missing_locations(rest)
+                self._run(it, [rest] + list(self.post))
+            return False
+        if self.tr is None:
+            return False                      # no handler around the yield: the exception goes through
+        fr.env["__pending_exc__"] = exc
+        rz = _ast.Raise(exc=_ast.Name(id="__pending_exc__", ctx=_ast.Load()), cause=None)
+        rest = _ast.Try(body=[rz], handlers=self.tr.handlers, orelse=[], finalbody=self.tr.finalbody)
+        _ast.copy_location(rest, self.tr)
+        _ast.fix_missing_locations(rest)
+        self._run(it, [rest] + list(self.post))    # raises PyRaise if a handler (re-)raises
+        return True                            # a handler swallowed it
 
 
 def construct(it, cls, args, kwargs, node):
